@@ -4,7 +4,7 @@ from qe_common import QE_TRUSTED, QE_ASSUMPTIONS, valid_qe, shrink_request
 PROP = Prop(
     pid="C01",
     coq_props="theories/C01/Props.v",
-    coq_run=["theories/QE/Run.v"],
+    coq_run=["theories/QE/Run.v", "theories/C07/Run.v"],
     streams=[Stream("filters", "qe", n_quick=400, n_thorough=4000, shards_thorough=8, valid=valid_qe, shrinker=shrink_request,
                     extra_args=["--profile", "c01"],
                     what="GET requests with generated filter trees through NewRequest/NewResponse/Buffer on a daemon loaded by the importer")],
